@@ -7,7 +7,7 @@ RULE = ("calls: every exported callable of the builtins and of the fmt, json, st
         "positions differing from a small int; thorough: all triples), called through a real VM without panic recovery, each call "
         "under a 2 s watchdog in a restartable worker; a panic, a hang or a dead worker is a violation; the documented arity "
         "(UgoCallSigs, extracted from docs) is compared and reported as drift; non-trivial = calls whose argument count is "
-        "within the documented arity")
+        "within the documented arity; the pool's non-ASCII string has 4 bytes and 2 characters (a pool integer lies between)")
 
 def run(ctx):
     out = ctx.path("tuples.ndjson")
